@@ -39,10 +39,10 @@ Qed.
 (* in a state that satisfies part 1 of the invariant no thread can take a step that
    panics (nil state, closed/nil channel, offsets index) *)
 Theorem no_panic_step : forall w r s t s',
-  Inv1 w r s -> step s t = Some s' ->
+  Safe s -> Inv1 w r s -> step s t = Some s' ->
   forall th', nth_error (ths s') t = Some th' -> t_pc th' <> PPanic.
 Proof.
-  intros w r s t s' I H th' E'. destruct (step_decomp _ _ _ H) as (th & g' & th'' & E & F & ->).
+  intros w r s t s' SA I H th' E'. destruct (step_decomp _ _ _ H) as (th & g' & th'' & E & F & ->).
   cbn in E'. rewrite nth_error_upd_eq in E' by (eapply nth_error_Some_lt; eauto).
   inversion E'; subst. eapply no_panic; eauto.
 Qed.
